@@ -1487,6 +1487,16 @@ def table_row_check_attrs(ctx: "Wtp") -> None:
     if len(node.children) < 1:
         return
 
+    if any(
+        isinstance(child, WikiNode)
+        and child.kind in (NodeKind.TABLE_CELL, NodeKind.TABLE_HEADER_CELL)
+        for child in node.children
+    ):
+        # The row's attributes precede its first cell: the cells are not
+        # an attribute string, even when their text reads like one
+        # ("|a=1||b").
+        return
+
     check, attribute_string = check_for_attributes(ctx, node)
     if not check:
         return
